@@ -1,15 +1,50 @@
 use crate::VueJsxTransformVisitor;
+use fnv::FnvHashMap;
 use indexmap::{IndexMap, IndexSet};
 use std::{borrow::Cow, cell::Cell};
 use swc_core::{
-    common::{comments::Comments, EqIgnoreSpan, Span, Spanned, DUMMY_SP},
+    common::{comments::Comments, EqIgnoreSpan, Span, Spanned, SyntaxContext, DUMMY_SP},
     ecma::{
         ast::*,
         atoms::{atom, Atom},
         utils::{quote_ident, quote_str},
+        visit::{Visit, VisitWith},
     },
     plugin::errors::HANDLER,
 };
+
+/// Registers every interface and type alias of the module (in any scope) before the
+/// transformation starts, so that resolving a type doesn't depend on where it is declared.
+pub(crate) struct TypeDeclCollector<'a> {
+    pub(crate) interfaces: &'a mut FnvHashMap<(Atom, SyntaxContext), TsInterfaceDecl>,
+    pub(crate) type_aliases: &'a mut FnvHashMap<(Atom, SyntaxContext), TsType>,
+}
+
+impl Visit for TypeDeclCollector<'_> {
+    fn visit_ts_interface_decl(&mut self, ts_interface_decl: &TsInterfaceDecl) {
+        ts_interface_decl.visit_children_with(self);
+        let key = (ts_interface_decl.id.sym.clone(), ts_interface_decl.id.ctxt);
+        if let Some(interface) = self.interfaces.get_mut(&key) {
+            interface
+                .body
+                .body
+                .extend_from_slice(&ts_interface_decl.body.body);
+        } else {
+            self.interfaces.insert(key, ts_interface_decl.clone());
+        }
+    }
+
+    fn visit_ts_type_alias_decl(&mut self, ts_type_alias_decl: &TsTypeAliasDecl) {
+        ts_type_alias_decl.visit_children_with(self);
+        self.type_aliases.insert(
+            (
+                ts_type_alias_decl.id.sym.clone(),
+                ts_type_alias_decl.id.ctxt,
+            ),
+            (*ts_type_alias_decl.type_ann).clone(),
+        );
+    }
+}
 
 enum RefinedTsTypeElement {
     Property(TsPropertySignature),
